@@ -12,9 +12,9 @@ def run(tier, rep):
     senv = dict(os.environ)
     senv['BXDECAY0_DBD_GA_DATA_DIR'] = gadir
     if tier == 'quick':
-        jobs = [('l1a', 2), ('l1b', 2), ('l1c', 2), ('l2a', 2), ('l2b', 2), ('l2c', 1), ('l3a', 2), ('l3b', 2), ('l3c', 1), ('l3d', 1), ('l3e', 1), ('l2e', 2)]
+        jobs = [('l1a', 2), ('l1b', 2), ('l1c', 2), ('l2a', 2), ('l2b', 2), ('l2c', 1), ('l3a', 2), ('l3b', 2), ('l3c', 1), ('l3d', 1), ('l3e', 1), ('l2e', 2), ('l3f', 1)]
     else:
-        jobs = [('l1a', 4), ('l1b', 3), ('l1c', 4), ('l2a', 3), ('l2b', 3), ('l2c', 2), ('l2d', 2), ('l3a', 3), ('l3b', 3), ('l3c', 2), ('l3d', 2), ('l3e', 2), ('l2e', 3), ('l2f', 2)]
+        jobs = [('l1a', 4), ('l1b', 3), ('l1c', 4), ('l2a', 3), ('l2b', 3), ('l2c', 2), ('l2d', 2), ('l3a', 3), ('l3b', 3), ('l3c', 2), ('l3d', 2), ('l3e', 2), ('l2e', 3), ('l2f', 2), ('l3f', 2), ('l3g', 2)]
 
     def one(j):
         h, b = j
@@ -50,7 +50,7 @@ def run(tier, rep):
     r.stderr = ''
     r.stdout = ''
     r.returncode = 0
-    for group, nrep, nproc in ((0, reps, 1), (1, 2, 3 if tier == 'quick' else 12), (2, 2, 3 if tier == 'quick' else 12), (3, 2, 2 if tier == 'quick' else 8)):
+    for group, nrep, nproc in ((0, reps, 1), (1, 2, 3 if tier == 'quick' else 12), (2, 2, 3 if tier == 'quick' else 12), (3, 2, 2 if tier == 'quick' else 8), (4, 1, 2 if tier == 'quick' else 8)):
         for _ in range(nproc):
             rr = subprocess.run([texe, str(nrep), str(group)], env=env, timeout=3000, stdout=subprocess.PIPE, stderr=subprocess.PIPE, text=True)
             r.stderr += rr.stderr
@@ -84,7 +84,7 @@ def run(tier, rep):
                 'pruning by observable state (handler state, per-thread step counters, blocked set) per remaining budget; L1 = threads calling decay0_gauss (smooth '
                 'integrand / integrand that makes QNG return GSL_ETOL), L2 = whole generators (construct, configure, initialise, 2 shots; l2e/l2f: gA generators loading synthetic tables) compared with their sequential '
                 'events; oracle: no signal, no deadlock, handler restored, sequential results. Plus a free-running ThreadSanitizer pass of 8 concurrent generators '
-                '(incl. gA modes and first-use of the plumbing entry points) for unsynchronised accesses the scheduler cannot see',
+                '(incl. gA modes, generators with their own direction-lock operations, concurrent resource look-ups and first-use of the plumbing entry points) for unsynchronised accesses the scheduler cannot see',
     })
     rep.assumptions += ['preemptions only at the interposed synchronisation points; sequential consistency (weaker memory-model effects are left to ThreadSanitizer)',
                         'GSL\'s handler variable lives in uninstrumented libgsl: mirrored on an instrumented proxy in the race pass']
